@@ -44,6 +44,7 @@ type FnResult struct {
 	Inputs      []inputVar
 	Pos         token.Position
 	Quantified  bool
+	Skipped     int // obligations tagged for other properties only (not solved in this run)
 }
 
 func (w *World) newCtx(fn *ssa.Function) *Ctx {
@@ -638,6 +639,19 @@ func (w *World) verifyFn(fn *ssa.Function, sv *Solver, tier string) *FnResult {
 		}
 	}
 	timeout := sv.Timeout
+	if w.onlyProp != "" {
+		// obligations tagged for other properties only are decided by those properties' checks (every tagged clause is an
+		// obligation of each property it names); here they are hypotheses of the continuation, not goals
+		var keep []Obl
+		for _, o := range real {
+			if len(o.Props) > 0 && !hasProp(o.Props, w.onlyProp) {
+				res.Skipped++
+				continue
+			}
+			keep = append(keep, o)
+		}
+		real = keep
+	}
 	res.Obls = sv.solveAll(c, real, timeout, true)
 	// automatically inferred termination measures: a candidate must decrease on every back edge of its loop
 	if len(autos) > 0 {
